@@ -1,0 +1,7 @@
+//go:build !verif
+
+package piece
+
+// verifYield is a named scheduling point used by the verification harness
+// (build tag verif).  Without the tag it is a no-op.
+func verifYield(point string, index uint32) {}
